@@ -136,7 +136,9 @@ func c10(c *Ctx) {
 	c10deadline(c, t)
 }
 
-func c10invalid(c *Ctx, t *transport) {
+func c10invalid(c *Ctx, t *transport) { c10invalidAs(c, t, "C10.invalid-clean") }
+
+func c10invalidAs(c *Ctx, t *transport, rule string) {
 	r := c.R
 	isControl, isData := c.fn("isControl"), c.fn("isData")
 	maxCtl := c.P.ConstInt("maxControlFramePayloadSize")
@@ -151,7 +153,7 @@ func c10invalid(c *Ctx, t *transport) {
 		fn := c.fn("(*Conn).WriteControl")
 		typeParam, dataParam := fn.Params[1], fn.Params[2]
 		ok, why := true, "every path reaching the mutex, the transport or writeFatal carries isControl(messageType) and !(len(data) > 125)"
-		c.explore("C10.invalid-clean", fn, core.Opts{Pure: pure}, func(p *core.Path) {
+		c.explore(rule, fn, core.Opts{Pure: pure}, func(p *core.Path) {
 			for i := range p.Events {
 				ev := &p.Events[i]
 				eff := ev.Kind == core.EvRecv || ev.Kind == core.EvSelect || ev.Kind == core.EvSend || callsStatic(ev, t.writeFatal)
@@ -165,19 +167,15 @@ func c10invalid(c *Ctx, t *transport) {
 					continue
 				}
 				g1 := hasLit(p, ev.NLits, true, app(isControl, func(a *core.Term) bool { return a.Kind == core.KParam && a.Ref == typeParam }))
-				g2 := hasLit(p, ev.NLits, false, func(x *core.Term) bool {
-					if x.Kind != core.KLt {
-						return false
-					}
-					v, isC := x.Args[0].Int64()
-					return isC && v == maxCtl && x.Args[1].Kind == core.KLen && x.Args[1].Args[0].Kind == core.KParam && x.Args[1].Args[0].Ref == dataParam
+				g2 := knowsLt(p, ev.NLits, maxCtl+1, func(y *core.Term) bool {
+					return y.Kind == core.KLen && y.Args[0].Kind == core.KParam && y.Args[0].Ref == dataParam
 				})
 				if !g1 || !g2 {
 					ok, why = false, "effect at "+c.P.Pos(ev.Instr.Pos())+" reachable without the guards isControl(messageType) and len(data) <= maxControlFramePayloadSize"
 				}
 			}
 		})
-		r.Check("C10.invalid-clean", shortFn(fn), "guards-dominate-effects", fn.Pos(), ok, why)
+		r.Check(rule, shortFn(fn), "guards-dominate-effects", fn.Pos(), ok, why)
 	}
 	// beginMessage
 	{
@@ -186,7 +184,7 @@ func c10invalid(c *Ctx, t *transport) {
 		isT := func(a *core.Term) bool { return a.Kind == core.KParam && a.Ref == typeParam }
 		ok, why := true, "every successful return and every store/pool access is dominated by isControl(type) or isData(type)"
 		writer := c.P.Field("Conn", "writer")
-		c.explore("C10.invalid-clean", fn, core.Opts{Pure: pure}, func(p *core.Path) {
+		c.explore(rule, fn, core.Opts{Pure: pure}, func(p *core.Path) {
 			guard := func(n int) bool {
 				return hasLit(p, n, true, app(isControl, isT)) || hasLit(p, n, true, app(isData, isT))
 			}
@@ -206,7 +204,7 @@ func c10invalid(c *Ctx, t *transport) {
 				}
 			}
 		})
-		r.Check("C10.invalid-clean", shortFn(fn), "guards-dominate-effects", fn.Pos(), ok, why)
+		r.Check(rule, shortFn(fn), "guards-dominate-effects", fn.Pos(), ok, why)
 	}
 	// flushFrame
 	{
@@ -217,7 +215,7 @@ func c10invalid(c *Ctx, t *transport) {
 		wr := c.fn("(*Conn).write")
 		ok, why := true, "write is called for a control frame only with final and length <= 125; the compared length is the encoded one; rejected frames neither write nor poison"
 		nCtl := 0
-		c.explore("C10.invalid-clean", fn, core.Opts{Pure: pure}, func(p *core.Path) {
+		c.explore(rule, fn, core.Opts{Pure: pure}, func(p *core.Path) {
 			for i := range p.Events {
 				ev := &p.Events[i]
 				if !callsStatic(ev, wr) || ev.Depth != 0 {
@@ -243,9 +241,9 @@ func c10invalid(c *Ctx, t *transport) {
 				var cmp *core.Term
 				for k := 0; k < ev.NLits; k++ {
 					l := p.Lits[k]
-					if !l.Pos && l.T.Kind == core.KLt {
-						if v, isC := l.T.Args[0].Int64(); isC && v == maxCtl {
-							cmp = l.T.Args[1]
+					if l.Pos && l.T.Kind == core.KLt {
+						if v, isC := l.T.Args1Int(); isC && v == maxCtl+1 {
+							cmp = l.T.Args[0]
 						}
 					}
 				}
@@ -283,7 +281,7 @@ func c10invalid(c *Ctx, t *transport) {
 						// writeFatal before any write: only the documented internal-error branch (extra in client mode)
 						if !hasLit(p, ev.NLits, false, func(x *core.Term) bool {
 							return x.Kind == core.KEq && x.Args[0].Kind == core.KLen
-						}) && !hasLit(p, ev.NLits, true, func(x *core.Term) bool { return x.Kind == core.KLt && x.Args[1].Kind == core.KLen }) {
+						}) && !hasLit(p, ev.NLits, false, func(x *core.Term) bool { return x.Kind == core.KLt && x.Args[0].Kind == core.KLen }) {
 							ok, why = false, "flushFrame poisons the connection (writeFatal) for a request it rejects"
 						}
 					}
@@ -293,9 +291,9 @@ func c10invalid(c *Ctx, t *transport) {
 		if nCtl == 0 {
 			ok, why = false, "no control-frame path to write found"
 		}
-		r.Check("C10.invalid-clean", shortFn(fn), "guards-dominate-effects", fn.Pos(), ok, why)
+		r.Check(rule, shortFn(fn), "guards-dominate-effects", fn.Pos(), ok, why)
 	}
-	r.Floor("C10.invalid-clean", 3)
+	r.Floor(rule, 3)
 }
 
 func c10deadline(c *Ctx, t *transport) {
